@@ -183,3 +183,10 @@ Definition watch_passing (prefix : str) (status : list str) (strict : bool) (che
 Definition svc_config (prefix : str) (status : list str) (strict : bool)
            (checks : list hcheck) (catalog : list centry) : outcome str :=
   make_config prefix catalog (watch_passing prefix status strict checks).
+
+(* ---- registry/consul/kv.go: listKV with separator = true, the text watchKV pushes for
+        the manual overrides: for every key under the KV path, in the order Consul lists
+        them, "# --- <key>\n" followed by the trimmed value; joined by an empty line ---- *)
+Definition s_kv_sep : str := bs "# --- ".
+Definition kv_text (pairs : list (str * str)) : str :=
+  join (map (fun p => s_kv_sep ++ fst p ++ 10 :: trim_space (snd p)) pairs) [10; 10].
